@@ -598,8 +598,11 @@ pub async fn run_scenario(sc: &Value) -> Vec<Value> {
         let w = CountWaker::new();
         let mut polls = 0usize;
         let mut mode = name.clone(); // how to advance first
+        let mut base = 0usize; // wake count seen right before the last poll of the call future
+        let mut quiescent_after = false;
         loop {
             let single = mode == "recv_poll" || mode == "call_poll";
+            let before = w.count();
             let res = match &mut the_call {
                 Call::Recv(f) => {
                     if single {
@@ -640,12 +643,14 @@ pub async fn run_scenario(sc: &Value) -> Vec<Value> {
                     }
                 }
             };
+            base = if single { before } else { w.count() };
             env.scan();
             let what = match &the_call {
                 Call::Recv(_) => "recv",
                 Call::Send(..) => "send",
                 Call::Sub(..) => "sub",
             };
+            let mut finished = true;
             match res {
                 Driven::Done(Ok(m)) => {
                     let parts = env.partials();
@@ -653,23 +658,30 @@ pub async fn run_scenario(sc: &Value) -> Vec<Value> {
                         Some(m) => env.ev(json!({"ev":"recv_ret","res":"ok","m":rc::mdesc(&from_msg(&m)),"polls":polls,"wakes":w.count()})),
                         None => env.ev(json!({"ev":format!("{}_ret", what),"res":"ok","polls":polls,"partials":parts})),
                     }
-                    break;
                 }
                 Driven::Done(Err(e)) => {
                     let (k, ret) = errkind(&e);
                     let parts = env.partials();
                     env.ev(json!({"ev":format!("{}_ret", what),"res":"err","err":k,"returned":ret.map(|r| rc::mdesc(&r)),"polls":polls,"partials":parts}));
-                    break;
                 }
                 Driven::Panicked(m) => {
                     take_panics();
                     env.ev(json!({"ev":"panic","where":what,"msg":m}));
                     env.ev(json!({"ev":format!("{}_ret", what),"res":"panic","polls":polls}));
-                    break;
                 }
                 Driven::Stalled => {
                     env.ev(json!({"ev":format!("{}_pending", what),"polls":polls,"wakes":w.count()}));
+                    finished = false;
                 }
+            }
+            if quiescent_after {
+                quiescent_after = false;
+                let parts = env.partials();
+                let woken = w.count() > base;
+                env.ev(json!({"ev":"quiescent","pending": if finished { "none" } else { what },"woken_since_poll":woken,"partials":parts}));
+            }
+            if finished {
+                break;
             }
             // process further ops while the call is pending
             let mut done = false;
@@ -698,10 +710,16 @@ pub async fn run_scenario(sc: &Value) -> Vec<Value> {
                         break;
                     }
                     "quiescent" => {
+                        // quiescence includes the executor: a woken future is re-polled first
                         sim::settle().await;
                         env.scan();
+                        if w.count() > base {
+                            mode = "wait".into();
+                            quiescent_after = true;
+                            break;
+                        }
                         let parts = env.partials();
-                        env.ev(json!({"ev":"quiescent","pending":what,"woken": w.count(),"partials":parts}));
+                        env.ev(json!({"ev":"quiescent","pending":what,"woken_since_poll":false,"partials":parts}));
                     }
                     _ => {
                         if !env.env_op(op2).await {
